@@ -234,4 +234,88 @@ theorem handle_establishes {s : St} {p : Pkt} (hwf : ∀ k c, s.pool k = some c 
         have := hwf _ c hp; omega
       simp [hcn, hdead c, hcd]
 
+
+/-! ### the scripted-dial version is the same function when no dial fails and no marker exists -/
+
+theorem markerOf_nil {s : St} (h : s.markers = []) (k : EKey) : markerOf s k = none := by
+  unfold markerOf; rw [h]; rfl
+
+theorem getOrCreate_markers (s : St) (k : EKey) (t : AP) : (getOrCreate s k t).1.markers = s.markers := by
+  unfold getOrCreate
+  cases get s k with
+  | some e => rfl
+  | none => cases hp : s.pool k <;> rfl
+
+theorem getOrCreateD_ok {s : St} (h : s.markers = []) (k : EKey) (t : AP) :
+    getOrCreateD s k t true = ((getOrCreate s k t).1, some ((getOrCreate s k t).2.1, (getOrCreate s k t).2.2)) := by
+  unfold getOrCreateD
+  cases hg : get s k with
+  | some e => simp [getOrCreate, hg]
+  | none => simp [markerOf_nil h]
+
+theorem retire_markers (s : St) (e : Nat) : (retire s e).markers = s.markers := by
+  unfold retire; simp only []; split <;> rfl
+
+theorem afterFailedWrite_markers (s : St) (k : EKey) (u : Nat) : (afterFailedWrite s k u).markers = s.markers := by
+  unfold afterFailedWrite remove
+  simp only []
+  split <;> split <;> simp [setEp, setPool, retire_markers] <;> (try split) <;> simp [retire_markers]
+
+theorem attemptsD_eq_attempts : ∀ (fuel : Nat) (s : St) (p : Pkt) (found : Option Found) (ue : Option Nat)
+    (retry : Nat) (ws : List Bool), s.markers = [] →
+    attemptsD fuel s p found ue retry ws [] = attempts fuel s p found ue retry ws := by
+  intro fuel
+  induction fuel with
+  | zero => intros; rfl
+  | succ n ih =>
+    intro s p found ue retry ws hm
+    unfold attemptsD attempts
+    by_cases hr : retry > s.maxRetry
+    · simp [hr]
+    · simp only [hr, if_false, List.headD_nil, List.tail_nil, ite_self]
+      cases found with
+      | none =>
+        simp only [getOrCreateD_ok hm]
+        split
+        · rfl
+        · exact ih _ _ _ _ _ _ (by rw [afterFailedWrite_markers, getOrCreate_markers]; exact hm)
+      | some f =>
+        cases ue with
+        | none =>
+          simp only [getOrCreateD_ok hm]
+          split
+          · rfl
+          · exact ih _ _ _ _ _ _ (by rw [afterFailedWrite_markers, getOrCreate_markers]; exact hm)
+        | some u =>
+          by_cases hk : retry = 0 ∧ attemptKey s p (some f) (some u) = f.key
+          · simp only [hk, and_self, if_true]
+            split
+            · rfl
+            · exact ih _ _ _ _ _ _ (by rw [afterFailedWrite_markers]; exact hm)
+          · simp only [hk, if_false, getOrCreateD_ok hm]
+            split
+            · rfl
+            · exact ih _ _ _ _ _ _ (by rw [afterFailedWrite_markers, getOrCreate_markers]; exact hm)
+
+/-- a first packet whose dial key carries an unexpired failure marker is dropped: no dial, no change -/
+theorem handleD_blocked {s : St} {p : Pkt} (ws ds : List Bool) (t : Nat) (h : lookup s p = none)
+    (hg : get s (dialKey false p.scope p.force p.d) = none)
+    (hm : markerOf s (dialKey false p.scope p.force p.d) = some t) (hlt : s.now < t) :
+    handleD s p ws ds = (s, none) := by
+  unfold handleD
+  rw [h]
+  show attemptsD (s.maxRetry + 1 + 1) s p none none 0 ws ds = _
+  unfold attemptsD
+  have hk : attemptKey s p none none = dialKey false p.scope p.force p.d := rfl
+  simp only [Nat.not_lt_zero, if_false, hk]
+  unfold getOrCreateD
+  simp [hg, hm, hlt]
+
+/-- the function the `c13_hp` stream is compared with (`handleD`) is `handle` — the function the two
+theorems are about — whenever no dial is scripted to fail and the negative cache is empty -/
+theorem handleD_eq_handle (s : St) (p : Pkt) (ws : List Bool) (hm : s.markers = []) :
+    handleD s p ws [] = handle s p ws := by
+  unfold handleD handle
+  exact attemptsD_eq_attempts _ s p _ _ 0 ws hm
+
 end DaeVerif.C13.Route
